@@ -319,6 +319,7 @@ func init() {
 			k.PNamedSlice = 25                // decorators and consumers that declare one group with different (named) slice types
 			k.PCallback, k.PCBInvoke = 10, 50 // a decorator's callback invokes a consumer of the decorated key
 			k.WDecoSandwich = 2               // a decorator registered between an outer decorator and a consumer that has resolved the key before
+			k.WDupDecorate = 2                // a second decorator for a decorated key / one decorator returning a key twice: rejected
 			return k
 		},
 		clauses: []string{CVerdictDecorate, CExecTwice, CProvSingle, CGroupMultiset, CFromNowhere, CBadExec, CZeroRequired},
